@@ -135,12 +135,16 @@ fn horizon(full: &RunOut, d: i64) -> Option<u64> {
     None
 }
 
-fn full_event(t: &Tables, sc: &Scenario, full: &RunOut, kmax: u64, d: i64, tag: &str) -> Value {
+fn full_event(t: &Tables, sc: &Scenario, full: &RunOut, kmax: u64, d: i64, tag: &str, ended: bool) -> Value {
     let infos: Vec<Value> = full.infos.iter().filter(|i| i["q"].as_u64().unwrap_or(0) <= kmax).cloned().collect();
     let sends: Vec<Value> = full.sends.iter().filter(|i| i["q"].as_u64().unwrap_or(0) <= kmax).cloned().collect();
     json!({"ev": "sfull", "tag": tag, "cmd": sc.cmd, "root": t.state(&sc.board), "rep0": table_json(&table_entries(&sc.table)),
            "K": kmax, "D": d, "infos": infos, "sends": sends, "panic": full.panic,
            "last_depth": full.infos.iter().filter_map(|i| i["depth"].as_i64()).max().unwrap_or(0),
+           // the search returned by itself inside the query budget (the clock never expired): whatever it handed over last
+           // is its final choice with unlimited time
+           "ended": ended && !full.panic,
+           "final_txt": full.sends.last().map(|x| x["txt"].as_str().unwrap_or("").to_string()).unwrap_or_default(),
            "root_rep": root_rep_counts(t, sc), "root_order": root_order(t, sc)})
 }
 
@@ -230,7 +234,7 @@ pub fn expiry_enumeration(t: &Tables, cmds: &[String], dir: &str, nshards: usize
             v.dedup();
             v
         };
-        let full_ev = full_event(t, &sc, &full, kmax, d, tag);
+        let full_ev = full_event(t, &sc, &full, kmax, d, tag, full.queries < budget);
         let summary = json!({"cmd": cmd, "D": d, "K": kmax, "runs": ks.len(), "exhaustive": kmax <= cap});
         Some(Plan { sc, full_ev, ks, summary })
     });
